@@ -294,8 +294,9 @@ def c18(ck):
     util.vacuity(ck, mc, "ProcStreams", ["AuxvResolve", "MemInfo", "Handles", "DsoWalk"])
     ck.add_mc(mc, "auxv resolution for every direct/proc combination of the four fields, memory-info list for every list of <= 2 lines over all 16 permission sets, handle sets, linker chain lengths with/without DT_DEBUG; invariants DirectFirst, OneEntryPerLine, HandlesBijective")
     scns = _scenarios(quick, ck.seed)
+    cross = dumps.cross_scenarios(quick, ck.seed)
     try:
-        runs = dumps.run_scenarios(ck, scns, "c18")
+        runs = dumps.run_scenarios(ck, scns + cross, "c18")
     finally:
         for s in scns:
             for f in s.get("cleanup", []):
